@@ -92,13 +92,15 @@ Definition kind_of (proxy : N) : option lkind :=
 Definition proxy_of (k : lkind) : N :=
   match k with LHttp => 0 | LHttps => 1 | LTcp => 2 | LUdp => 3 end.
 
+Definition needs_sid (k : lkind) : bool := match k with LHttp | LHttps => true | _ => false end.
+
 (** * Requests and results *)
 Inductive request :=
 | RAddCluster (id : N) (c : cluster)
 | RRemoveCluster (id : N)
 | RSetHc (id : N) (hc : N)
 | RRemoveHc (id : N)
-| RAddListener (k : lkind) (a : N) (l : listener)
+| RAddListener (k : lkind) (a : N) (l : listener) (sid_ok : bool)   (* sid_ok: verdict of validate_sozu_id_header on the listener's header, if any *)
 | RRemoveListener (proxy a : N)
 | RActivate (proxy a : N)
 | RDeactivate (proxy a : N)
@@ -183,11 +185,13 @@ Section model.
     | None => (s, Err ENotFound)
     end.
 
-  Definition add_listener (s : state) (k : lkind) (a : N) (l : listener) : state * res :=
-    match get_l k s !! a with
-    | None => (set_l k s (<[a := l]> (get_l k s)), Ok)
-    | Some _ => (s, Err EExists)
-    end.
+  (** add_http(s)_listener validate the correlation header name first (as the update path does) *)
+  Definition add_listener (s : state) (k : lkind) (a : N) (l : listener) (sid_ok : bool) : state * res :=
+    if needs_sid k && negb sid_ok then (s, Err EInvalidValue)
+    else match get_l k s !! a with
+         | None => (set_l k s (<[a := l]> (get_l k s)), Ok)
+         | Some _ => (s, Err EExists)
+         end.
 
   Definition remove_listener (s : state) (proxy a : N) : state * res :=
     match kind_of proxy with
@@ -329,7 +333,7 @@ Section model.
     | RRemoveCluster id => remove_cluster s id
     | RSetHc id v => set_health_check s id v
     | RRemoveHc id => remove_health_check s id
-    | RAddListener k a l => add_listener s k a l
+    | RAddListener k a l ok => add_listener s k a l ok
     | RRemoveListener p a => remove_listener s p a
     | RActivate p a => set_active s p a true
     | RDeactivate p a => set_active s p a false
@@ -361,7 +365,7 @@ Section model.
   (** * generate_requests (section order of state.rs) *)
   Definition gen_listeners (k : lkind) (m : gmap N listener) : list request :=
     flat_map (fun al : N * listener =>
-                RAddListener k (fst al) (snd al)
+                RAddListener k (fst al) (snd al) true
                 :: (if l_active (snd al) then [RActivate (proxy_of k) (fst al)] else []))
              (map_to_list m).
   Definition gen_tfronts (udp : bool) (m : gmap N (list tfront)) : list request :=
@@ -427,7 +431,7 @@ Definition diff_listeners_removed (k : lkind) (my other : gmap N listener) : lis
               ++ [RRemoveListener (proxy_of k) (fst al)]) (keys_not_in my other).
 Definition diff_listeners_added (k : lkind) (my other : gmap N listener) : list request :=
   flat_map (fun al : N * listener =>
-              RAddListener k (fst al) (snd al)
+              RAddListener k (fst al) (snd al) true
               :: (if l_active (snd al) then [RActivate (proxy_of k) (fst al)] else [])) (keys_not_in other my).
 Definition common_chunk (k : lkind) (other : gmap N listener) (a : N) (l : listener) : list request :=
   match other !! a with
@@ -435,7 +439,7 @@ Definition common_chunk (k : lkind) (other : gmap N listener) (a : N) (l : liste
   | Some their =>
     (if bool_decide (l = their) then []
      else [RRemoveListener (proxy_of k) a;
-           RAddListener k a (Listener false (l_fields their) (l_rest their))]
+           RAddListener k a (Listener false (l_fields their) (l_rest their)) true]
           ++ (if l_active their then [RActivate (proxy_of k) a] else []))
     ++ (if l_active l && negb (l_active their) then [RDeactivate (proxy_of k) a] else [])
   end.
